@@ -19,7 +19,9 @@
 (* arithmetic below stays under 2^31.                                      *)
 (*                                                                         *)
 (* Laws (tolerances are the constants below):                              *)
-(*   wellformed  no panic, no NaN / infinity                               *)
+(*   wellformed  no panic ever; no NaN / infinity in the distances and     *)
+(*               bearings of the inputs themselves, nor (inside the domain *)
+(*               of the guarded laws) in anything derived from dest / mid  *)
 (*   nonneg      every distance >= 0                                       *)
 (*   zero        d_aa = d_bb = 0, and d_ab = d_ba = 0 when a = b           *)
 (*   bearing     0 <= bearing < 360                                        *)
@@ -88,7 +90,9 @@ SymTol(e) == IF e.space = "rhumb" THEN Um(SymTolRhumb) ELSE Um(SymTolAbs + (e.d_
 InLonLat(p) == Leq(AbsL(Lon(p)), Deg(180)) /\ Leq(AbsL(Lat(p)), Deg(90))
 BearingOK(t) == 0 <= t[1] /\ t[1] <= 359
 PairLaw(name, e) ==
-    CASE name = "wellformed" -> e.bad = "" /\ \A i \in 1 .. 7 : WellLimbed(Dists(e)[i])
+    CASE name = "wellformed" -> /\ e.bad.panic = <<>> /\ e.bad.core = <<>>
+                                /\ RoundTripDomain(e) => (e.bad.trip = <<>> /\ e.bad.mid = <<>>)
+                                /\ \A i \in 1 .. 7 : WellLimbed(Dists(e)[i])
       [] name = "nonneg"     -> \A i \in 1 .. 7 : ~IsNeg(Dists(e)[i])
       [] name = "zero"       -> e.d_aa = Zero /\ e.d_bb = Zero /\ (e.a = e.b => (e.d_ab = Zero /\ e.d_ba = Zero))
       [] name = "bearing"    -> BearingOK(e.brg_ab) /\ BearingOK(e.brg_ba)
@@ -105,7 +109,7 @@ PairLaws == <<"wellformed", "nonneg", "zero", "bearing", "range", "symmetric", "
 RECURSIVE SumL(_, _)
 SumL(s, i) == IF i > Len(s) THEN Zero ELSE Add(s[i], SumL(s, i + 1))
 LsLaw(name, e) ==
-    CASE name = "wellformed" -> e.bad = "" /\ WellLimbed(e.len) /\ \A i \in 1 .. Len(e.segs) : WellLimbed(e.segs[i])
+    CASE name = "wellformed" -> e.bad.panic = <<>> /\ e.bad.core = <<>> /\ WellLimbed(e.len) /\ \A i \in 1 .. Len(e.segs) : WellLimbed(e.segs[i])
       [] name = "nonneg"     -> ~IsNeg(e.len) /\ \A i \in 1 .. Len(e.segs) : ~IsNeg(e.segs[i])
       [] name = "length"     -> /\ Len(e.segs) = Len(e.pts) - 1
                                 /\ Leq(AbsL(Sub(e.len, SumL(e.segs, 1))), Um(Len(e.segs) + 1))
